@@ -398,10 +398,28 @@ theorem tm_onConstraintCandidates (sid : SoR) (vs : Nat) (cands : List Nat) (hc 
   · intro _
     tr_quiet
 
+theorem mem_sortedCands (U : Universe) (vs x : Nat) : x ∈ sortedCands U vs ↔ x ∈ U.candsOf vs := by
+  unfold sortedCands
+  rw [mem_favoredFirst, mem_rankSort]
+
+theorem mem_flatten_sortedCands (U : Universe) (r : Req) (c : Nat) :
+    c ∈ ((U.reqVersionSets r).map (sortedCands U)).flatten ↔ c ∈ U.reqCands r := by
+  unfold Universe.reqCands
+  simp only [List.mem_flatten, List.mem_map, List.mem_flatMap]
+  constructor
+  · rintro ⟨l, ⟨vs, hvs, rfl⟩, hc⟩
+    exact ⟨vs, hvs, (mem_sortedCands U vs c).mp hc⟩
+  · rintro ⟨vs, hvs, hc⟩
+    exact ⟨_, ⟨vs, hvs, rfl⟩, (mem_sortedCands U vs c).mpr hc⟩
+
 /-- `on_requirement_candidates_available` for a requirement of the solvable -/
 theorem tm_onRequirementCandidates (U : Universe) (sid : SoR) (r : Req) (candidates : List (List Nat))
-    (hr : TaskLegit U P (.req sid r)) (hc : ∀ c, c ∈ candidates.flatten ↔ c ∈ U.reqCands r) :
+    (hr : TaskLegit U P (.req sid r)) (hcs : candidates = (U.reqVersionSets r).map (sortedCands U)) :
     TM U P (onRequirementCandidates U sid r candidates) := by
+  have hflat : candidates.flatten = reqSorted U r := by
+    rw [hcs]; unfold reqSorted; rw [List.flatMap_def]
+  have hc : ∀ c, c ∈ candidates.flatten ↔ c ∈ U.reqCands r := by
+    intro c; rw [hcs]; exact mem_flatten_sortedCands U r c
   unfold onRequirementCandidates
   apply tm_of_tr (G := fun _ _ => True)
   apply tr_bind (by stab) (tr_internSoR _ sid)
@@ -460,8 +478,11 @@ theorem tm_onRequirementCandidates (U : Universe) (sid : SoR) (r : Req) (candida
         · apply tr_cacheInsert
           intro s hi hF
           obtain ⟨h1, h2⟩ := pairOK_sides hF.1.1.2
-          exact ⟨fun v hv => let ⟨c, hc1, hc2⟩ := h1 v hv; ⟨c, hc2, (hc c).mp hc1⟩,
-                 fun c hcm => h2 c ((hc c).mpr hcm)⟩
+          refine ⟨⟨fun v hv => let ⟨c, hc1, hc2⟩ := h1 v hv; ⟨c, hc2, (hc c).mp hc1⟩,
+                 fun c hcm => h2 c ((hc c).mpr hcm)⟩, ?_⟩
+          have hp : PairOK candidates.flatten vsVars.flatten s := hF.1.1.2
+          rw [hflat] at hp
+          exact hp
         · intro _
           apply tr_bind (by stab) (G := fun _ _ => True)
           · apply tr_allocClause
@@ -491,20 +512,6 @@ theorem tr_getCandidates (U : Universe) (n : Nat) :
   intro s0
   dsimp only
   split <;> tr_seq_pure
-
-theorem mem_sortedCands (U : Universe) (vs x : Nat) : x ∈ sortedCands U vs ↔ x ∈ U.candsOf vs := by
-  unfold sortedCands
-  rw [mem_favoredFirst, mem_rankSort]
-
-theorem mem_flatten_sortedCands (U : Universe) (r : Req) (c : Nat) :
-    c ∈ ((U.reqVersionSets r).map (sortedCands U)).flatten ↔ c ∈ U.reqCands r := by
-  unfold Universe.reqCands
-  simp only [List.mem_flatten, List.mem_map, List.mem_flatMap]
-  constructor
-  · rintro ⟨l, ⟨vs, hvs, rfl⟩, hc⟩
-    exact ⟨vs, hvs, (mem_sortedCands U vs c).mp hc⟩
-  · rintro ⟨vs, hvs, hc⟩
-    exact ⟨_, ⟨vs, hvs, rfl⟩, (mem_sortedCands U vs c).mpr hc⟩
 
 theorem tr_getSortedVs (F : S → Prop) (hF : Stable F) (U : Universe) (vs : Nat) :
     Tr U P F (getSortedVs U vs) (fun l _ => l = sortedCands U vs) := by
@@ -566,7 +573,7 @@ theorem tm_runTask (U : Universe) (P : Problem) (t : Task) (ht : TaskLegit U P t
     · intro lists
       apply tr_assume (p := lists = (U.reqVersionSets r).map (sortedCands U)) (fun _ h => h.2)
       intro hl
-      exact tr_of_tm _ (tm_onRequirementCandidates U sid r lists ht (by rw [hl]; exact mem_flatten_sortedCands U r))
+      exact tr_of_tm _ (tm_onRequirementCandidates U sid r lists ht hl)
   | cons sid vs =>
     unfold runTask
     apply tm_of_tr (G := fun _ _ => True)
@@ -676,7 +683,7 @@ theorem tm_runCallback (U : Universe) (P : Problem) (t : Task) (r : TaskResult) 
     obtain ⟨rfl, rfl⟩ := hr
     have h := hl _ _ rfl
     simp only [ReqLists] at h
-    exact tm_onRequirementCandidates U _ _ _ ht (by rw [h]; exact mem_flatten_sortedCands U _)
+    exact tm_onRequirementCandidates U _ _ _ ht h
   · obtain ⟨rfl, rfl, rfl⟩ := hr; exact tm_onConstraintCandidates _ _ _ ht (fun _ h => h)
 
 macro "res_fin" ht:ident : tactic => `(tactic| (intro r hr; first | (cases hr; done) | (cases hr; rw [$ht:ident]; simp [ResFor, depsAnswer])))
@@ -1188,11 +1195,14 @@ theorem tinv_solve (U : Universe) (hU : WFU U) (P : Problem) (fuel : Nat) (s : S
         apply tm_bind _ _ hloop
         intro _
         ts
-  · refine ⟨⟨?_, ?_, ?_⟩, hU, rfl, ?_, ?_, ?_, ?_, ?_⟩
+  · refine ⟨⟨?_, ?_, ?_, ?_⟩, hU, rfl, ?_, ?_, ?_, ?_, ?_⟩
     · intro v x hv
       have hv' : List.lookup v [(0, Origin.root)] = some (.solvable x) := hv
       simp only [List.lookup_cons, List.lookup_nil] at hv'
       split at hv' <;> cases hv'
+    · intro r x hr
+      have hr' : List.lookup r ([] : List (Req × List (List Nat))) = some x := hr
+      cases hr'
     · intro r x hr
       have hr' : List.lookup r ([] : List (Req × List (List Nat))) = some x := hr
       cases hr'
